@@ -261,6 +261,19 @@ pub fn run(ctx: &mut Ctx) {
                         ctx.transitions(base.n_steps());
                         class.add(ctx, from_jax(&base, &o, transitive), &exp, path, &format!("stanzas {p:?}"), &case);
                     }
+                    // a [Typedef] stanza at every position among the permuted term stanzas
+                    for (pi, p) in permutations(n).into_iter().enumerate() {
+                        if transitive && pi % 3 != 0 {
+                            continue;
+                        }
+                        for pos in 0..=n {
+                            let mut o = JaxOpts::default();
+                            o.stanza_order = Some(p.clone());
+                            o.distractors = vec![crate::jax::Distractor::Typedef(pos)];
+                            ctx.transitions(base.n_steps());
+                            class.add(ctx, from_jax(&base, &o, transitive), &exp, path, &format!("stanzas {p:?} with a [Typedef] stanza at position {pos}"), &case);
+                        }
+                    }
                     for p in order_family(ng, 4, 1).into_iter().skip(1) {
                         let mut o = JaxOpts::default();
                         o.gene_row_order = Some(p.clone());
